@@ -932,6 +932,37 @@ def pred_dtype(ctx, e, case, store):
         ctx.count('pred:dtype')
 
 
+def pred_unit_setter(ctx, e, case, store):
+    """changing the unit of a profile (directly or through the model's delegating setter) after construction
+    == constructing it with that unit (the numeric parameters are 'in the set unit' and are not rescaled)"""
+    fm = e['fm']
+    for l, x in enumerate(store):
+        if not is_model(e, x):
+            continue
+        y = x.copy()
+        ep, tp = y.energy_profile, y.time_profile
+        eu = (e['EU'].index(ep.energy_unit) + 1) % 3
+        tu = (e['TU'].index(tp.time_unit) + 2) % 3
+        before = (state_tokens(e, ep)[2:], state_tokens(e, tp)[2:])
+        y.energy_unit = e['EU'][eu]
+        y.time_unit = e['TU'][tu]
+        after = (state_tokens(e, ep)[2:], state_tokens(e, tp)[2:])
+        ok = (ep.energy_unit == e['EU'][eu] and tp.time_unit == e['TU'][tu] and y.energy_unit == e['EU'][eu]
+              and y.time_unit == e['TU'][tu] and before == after)
+        # value of the same NUMBER E in the new unit == value of a twin constructed with the new unit
+        st = state_tokens(e, ep)
+        if ok and st[0] in ('PL', 'CO', 'LP', 'UE'):
+            twin = build_obj(e, [], [st[0], eu] + list(st[2:]))
+            ok = np.array_equal(ep(np.array([0.7, 30.0])), twin(np.array([0.7, 30.0])), equal_nan=True) and \
+                np.array_equal(ep(np.array([0.7, 30.0]), unit=e['EU'][0]), twin(np.array([0.7, 30.0]), unit=e['EU'][0]), equal_nan=True)
+        if not ok:
+            ctx.violation('FactorizedFluxModel.energy_unit/time_unit', 'unit-setter-differs-from-construct',
+                          f'after setting the units: parameters {before} -> {after}',
+                          case={'case': case, 'loc': l, 'units': [eu, tu]},
+                          predicate='set unit then observe == construct with that unit then observe')
+        ctx.count('pred:unit-setter')
+
+
 def pred_point(ctx, e, case, store):
     """the point profile is 1 only where BOTH coordinates match; a model evaluates its spatial profile
     only when both ra and dec are given"""
@@ -1319,6 +1350,7 @@ def run_cases(ctx, cases, exe):
             pred_arguments(ctx, e, c, store)
             pred_dtype(ctx, e, c, store)
             pred_point(ctx, e, c, store)
+            pred_unit_setter(ctx, e, c, store)
             pred_rv(ctx, e, c, store)
             pred_history(ctx, e, c)
             pred_copy(ctx, e, c, store)
